@@ -288,11 +288,11 @@ fn build_shape(request: &Message, op: &str, i: usize, n: usize, secret: &[u8], p
 fn altered(kind: Kind, request: &Message, op: &str, i: usize, n: usize, prior: &[u8], genuine: &Built, rng: &mut StdRng) -> (Vec<u8>, usize) {
     match kind {
         Kind::Genuine => (genuine.bytes.clone(), 0),
-        Kind::BitFlip => flip_bit(genuine, 2, genuine.bytes.len(), rng),
+        Kind::BitFlip => flip_bit(genuine, 2, genuine.bytes.len(), i == 1, rng),
         Kind::BitFlipIn(r) => match r % 3 {
-            0 => flip_bit(genuine, 2, 12, rng),
-            1 => flip_bit(genuine, 12, genuine.tsig_at, rng),
-            _ => flip_bit(genuine, genuine.tsig_at + genuine.key_name_len, genuine.bytes.len(), rng),
+            0 => flip_bit(genuine, 2, 12, i == 1, rng),
+            1 => flip_bit(genuine, 12, genuine.tsig_at, i == 1, rng),
+            _ => flip_bit(genuine, genuine.tsig_at + genuine.key_name_len, genuine.bytes.len(), i == 1, rng),
         },
         Kind::BadMac => {
             let mac: Vec<u8> = if rng.random_bool(0.5) { vec![0x5a; 32] } else { (0..32).map(|_| rng.random::<u8>()).collect() };
@@ -318,14 +318,31 @@ fn altered(kind: Kind, request: &Message, op: &str, i: usize, n: usize, prior: &
 }
 
 /// flips one bit that the MAC has to cover: not in the message ID (octets 0-1, replaced by the
-/// original ID before the MAC is computed) and not the letter-case bit of the key name
-fn flip_bit(b: &Built, lo: usize, hi: usize, rng: &mut StdRng) -> (Vec<u8>, usize) {
+/// original ID before the MAC is computed) and not the letter-case bit of the key name.  In every message
+/// of a reply but the first the digest covers, of the TSIG record, only the timers (RFC 8945 5.3.1: prior
+/// MAC, DNS message, Time Signed and Fudge); what the MAC does not cover there -- class, TTL, algorithm
+/// name, error, other data -- is not a "modified reply" the property could expect to be refused
+fn flip_bit(b: &Built, lo: usize, hi: usize, first: bool, rng: &mut StdRng) -> (Vec<u8>, usize) {
+    let rd = b.tsig_at + b.key_name_len + 10;
+    let mut alg_end = rd;
+    while alg_end < b.bytes.len() && b.bytes[alg_end] != 0 && b.bytes[alg_end] & 0xC0 == 0 {
+        alg_end += 1 + b.bytes[alg_end] as usize;
+    }
+    let timers = alg_end + 1; // Time Signed (6) + Fudge (2)
+    let mac_len = if timers + 10 <= b.bytes.len() { u16::from_be_bytes([b.bytes[timers + 8], b.bytes[timers + 9]]) as usize } else { 0 };
+    let mac = timers + 10;
     loop {
         let byte = rng.random_range(lo..hi);
         let bit = rng.random_range(0..8usize);
         let in_key_name = byte >= b.tsig_at && byte < b.tsig_at + b.key_name_len;
         if in_key_name && bit == 5 && b.bytes[byte].is_ascii_alphabetic() {
             continue;
+        }
+        if !first && byte >= b.tsig_at + b.key_name_len {
+            let covered = (byte >= timers && byte < timers + 8) || (byte >= mac && byte < mac + mac_len);
+            if !covered {
+                continue;
+            }
         }
         let mut m = b.bytes.clone();
         m[byte] ^= 1 << bit;
